@@ -75,7 +75,10 @@ func validateEndBuf(src []byte, cursor int64) error {
 			cursor++
 			continue
 		case nul:
-			return nil
+			// only the sentinel appended behind the input ends it: a NUL inside the input is data
+			if cursor == int64(len(src))-1 {
+				return nil
+			}
 		}
 		return errors.ErrSyntax(
 			fmt.Sprintf("invalid character '%c' after top-level value", src[cursor]),
